@@ -227,8 +227,29 @@ def handleCf (args block : String) : String :=
     | .unsupported => "unsupported"
   | _, _ => "bad-op"
 
+/-! ### the `fs` op: the real file_server (with precompressed sidecars) behind the real encode handler, end to
+    end — judged by the implementation-only oracle; the model only says whether the line is a case. -/
+
+def parseGzZs (s : String) : Option (List Bytes) :=
+  if s == "-" then some [] else
+  ((s.splitOn ",").mapM (fun n => if n == "gzip" || n == "zstd" then some (str n) else none)).bind
+    (fun l => if noDups l then some l else none)
+
+def rangeOk (s : String) : Bool :=
+  s == "-" || (match s.splitOn "-" with
+    | [a, b] => !a.isEmpty && a.length ≤ 6 && a.toList.all Char.isDigit && !b.isEmpty && b.length ≤ 6 && b.toList.all Char.isDigit
+    | _ => false)
+
+def handleFs (encs prefer min pre file method ae range : String) : String :=
+  match parseGzZs encs, parseGzZs prefer, parseInt min, parseGzZs pre, optHex ae with
+  | some e, some p, some _, some _, some _ =>
+    if p.all e.contains && (file == "a" || file == "b" || file == "s" || file == "c" || file == "d") &&
+        (method == "G" || method == "H") && rangeOk range then "fs-ok" else "bad-op"
+  | _, _, _, _, _ => "bad-op"
+
 def handle : List String → String
   | ["cf", args, block] => handleCf args block
+  | ["fs", encs, prefer, min, pre, file, method, ae, range] => handleFs encs prefer min pre file method ae range
   | [enc, prefer, min, matcher, method, ae, ws, rcc, inm, dct, rf, script] =>
     match parseNames enc, parseNames prefer, parseInt min, parseMatcher matcher,
           optHex ae, optHex rcc, optHex inm, optHex dct, parseScript script with
